@@ -30,9 +30,15 @@ type C19Case struct {
 	Present string  `json:"present,omitempty"` // pre-existing output: "" | empty | index | garbage
 	LF      bool    `json:"lf,omitempty"`      // records end in LF instead of CR LF
 	NoFinal bool    `json:"no_final,omitempty"` // last record without line terminator
+	// PriorKill > 0: before the run under test, an earlier `updog create` to the SAME output path
+	// with OTHER records is killed by SIGKILL at that per-mille position of its write sequence
+	// and the partial output removed — whatever else that run left behind must not matter
+	PriorKill    int `json:"prior_kill,omitempty"`
+	PriorRecords int `json:"prior_records,omitempty"`
 }
 
-var headerPool = []string{"Name", "city", "COL 2", "x-y", "Ünï", "a1", "é", "k_k", "Zip Code", "q", "日本", "Value$", "tag"}
+// includes the two code points outside ASCII whose lower case IS ASCII (U+212A KELVIN SIGN -> k, U+0130 -> i)
+var headerPool = []string{"Name", "city", "COL 2", "x-y", "Ünï", "a1", "é", "k_k", "Zip Code", "q", "日本", "Value$", "tag", "\u212a", "\u0130d", "\u212aelvin", "ſ", "ǅ"}
 var fieldPool = []string{"", "a", "b", "x y", "comma,inside", "quote\"inside", "\"", "line\nbreak", "ü日本", " lead", "trail ", "tab\there", "'single'", "1", "0", "long-" + strings.Repeat("z", 40), "\xff\xfebin", "cr\rinside", "a,b\"c\nd"}
 
 // normHeader is the statement's normalisation: lower-cased, every character outside a-z -> '_'.
@@ -99,6 +105,9 @@ func genC19(c *Ctx) any {
 	}
 	if r.Chance(1, 4) {
 		cs.Present = []string{"empty", "index", "garbage"}[r.Intn(3)]
+	} else if cs.Malform == "" && r.Chance(1, 6) {
+		cs.PriorKill = r.Range(300, 990)
+		cs.PriorRecords = r.Range(1100, 2600)
 	}
 	return cs
 }
@@ -313,6 +322,35 @@ func runC19(c *Ctx, body json.RawMessage) *Verdict {
 		out := c.Path("out-" + mode + ".updog")
 		if err := presetFile(c, out, cs.Present); err != nil {
 			return v.Harness("preset: %v", err)
+		}
+		if cs.PriorKill > 0 && cs.Present == "" {
+			prior := c.Path("prior-" + mode + ".csv")
+			pc := &C19Case{Header: cs.Header, LF: true}
+			for i := 0; i < cs.PriorRecords; i++ {
+				rec := make([]S, len(cs.Header))
+				for j := range rec {
+					// the same (column, value) pairs as the real input, at other row ids: anything
+					// that survives the killed run shows up as inflated counts
+					if len(cs.Records) > 0 && !strings.ContainsAny(string(cs.Records[(i*7+3)%len(cs.Records)][j]), "\r") {
+						rec[j] = cs.Records[(i*7+3)%len(cs.Records)][j]
+					} else {
+						rec[j] = S(fmt.Sprintf("prior%d_%d", j, i%997))
+					}
+				}
+				pc.Records = append(pc.Records, rec)
+			}
+			_ = os.WriteFile(prior, pc.csvBytes(), 0o644)
+			margs := []string{"create", "-o", out, prior}
+			if mode == "big" {
+				margs = []string{"create", "-b", "-o", out, prior}
+			}
+			nw, err := killedRun(c, 0, margs...)
+			os.Remove(out)
+			if err == nil && nw > 0 {
+				_, _ = killedRun(c, 1+cs.PriorKill*nw/1000, margs...)
+				os.Remove(out) // the user removes the rejected leftover and tries again with the real input
+				v.Count("fault_prior_run_killed", 1)
+			}
 		}
 		before := statSig(out)
 		args := []string{"create", "-o", out, in}
